@@ -17,7 +17,7 @@ CHECK = {
     "exhaustive": {"quick": False, "thorough": False},
     "stages": [
         {"name": "objects", "variant": "asan", "harness": "c18_measure.cpp",
-         "cases": {"quick": 1000, "thorough": 15000},
+         "cases": {"quick": 800, "thorough": 15000},
          "params": {"steps": {"quick": 7, "thorough": 10},
                     "maxTris": {"quick": 600, "thorough": 2500},
                     "queries": {"quick": 16, "thorough": 25},
